@@ -4,7 +4,7 @@ from . import core
 from .core import origins, callee, callee_decl, is_log
 
 WRITE_FNS = ('std::io::Write::write', 'std::io::Write::write_all', 'std::os::unix::fs::FileExt::write_at',
-             'bytes::BufMut::put_slice', 'bytes::buf::BufMut::put_slice')
+             'bytes::BufMut::put_slice', 'bytes::buf::BufMut::put_slice', 'std::vec::Vec::extend_from_slice')
 READ_FNS = ('std::io::Read::read', 'std::io::Read::read_exact', 'std::os::unix::fs::FileExt::read_at')
 
 
